@@ -631,6 +631,17 @@ theorem step_noOverwrite {okf : Nat} {s s' : State} {a : Action} (h : step okf s
     simp only [step] at h
     obtain ⟨app, m, _, _, hf⟩ := withApp_some h
     injection hf with hf; subst hf; exact (keeps_of_apps_eq rfl).noOverwrite
+  | stopApp app =>
+    simp only [step] at h
+    split at h
+    · cases h
+    · split at h
+      · injection h with h; subst h
+        intro a i p hp
+        by_cases ha : a = app
+        · subst ha; right; unfold mapped; simp only [getApp_filter_same]
+        · left; unfold mapped at hp ⊢; simp only [getApp_filter_ne _ _ _ ha]; exact hp
+      · cases h
 
 /-! ### (iii) what one consumption writes -/
 
